@@ -7,14 +7,20 @@ pool (not only the arguments) and the inline arguments are deep-snapshotted; the
                   no exception outside the documented rejection classes.
   correspondence: the same history is replayed on the Lean object-store model (OQ/Model/C20.lean); results
                   and the final pool must agree (exact rationals, 1e-9 on inexact floats).
+Kind `containers` (c20_containers.py, oracle only): every argument of every family of value-returning operations in every
+container type the library accepts (tuple / OrderedDict / MappingProxyType / float64, complex128, int64 arrays - contiguous,
+strided, read-only - ...), deep snapshots of the arguments around every call.  The literal containers and inline arguments
+of the histories come in those types as well (`ct`, `qt`, `mt`, `st` of a call; invisible to the model).
 """
 import json
 import os
 import tempfile
+import types as _types
 from fractions import Fraction
 
 from .. import common
 from ..common import rat, unrat
+from . import c20_containers
 
 PROP = "C20"
 RULE = ("random call histories (8-22 calls) on a shared pool of circuits / Pauli terms and sums / measurement sets / "
@@ -26,8 +32,15 @@ RULE = ("random call histories (8-22 calls) on a shared pool of circuits / Pauli
         "one-component siblings recur later in the history; the whole history is run three ways (as given; object calls "
         "re-ordered with all reports afterwards, every 8th time on a freshly loaded copy of the library; every call "
         "followed by reading everything readable and by editing what it returned) and the final deep observations "
-        "must agree; non-trivial: a history with >= 2 listed calls that share at least one pool object; "
-        "distinct = distinct canonical JSON of the history")
+        "must agree; the literal containers and inline arguments of a history also come in the container types that ALIAS under a "
+        "copy-avoiding conversion (tuples, OrderedDict / MappingProxyType / Counter, object arrays, read-only and strided arrays, "
+        "qubit indices as int64 arrays / ranges, kernel widths as float64 / int64 arrays inside the parameter dictionary); kind "
+        "`containers` (harness/props/c20_containers.py): 24 families of value-returning operations, EVERY argument slot in EVERY "
+        "container type the unchanged library accepts for it (one case per family x slot x type on every run, plus random "
+        "combinations), the family's calls made on the same argument objects, each twice, deep snapshots (value bits, dtype, strides, "
+        "flags, container type, order, identity, the buffer behind a view, the dict behind a proxy) around every call; "
+        "non-trivial: a history with >= 2 listed calls that share at least one pool object, a containers case with at least one "
+        "argument not in its default type; distinct = distinct canonical JSON of the history")
 TRUSTED = [
     "numpy / sympy / scipy / json / rapidjson functions the operations call on the values they have READ do not "
     "write through to those values (np.abs, @, Matrix.subs, Counter, json.dumps ...)",
@@ -48,6 +61,13 @@ TRUSTED = [
     "which the histories apply to COPIES only",
     "re-executing the library's modules (importlib, sys.modules swapped and restored) yields a copy whose behaviour differs "
     "from the first copy only by module-level state accumulated since import",
+    "containers: the argument snapshot (c20_containers.csnap) sees every way an argument can change: ndarray bytes / dtype / shape / "
+    "strides / flags and the buffer behind a strided view, numpy scalars by bytes, list / tuple / dict / OrderedDict / Counter / "
+    "defaultdict / MappingProxyType (and the dict behind it) by type, order, content and identity of every nested container, "
+    "sets, ranges, sympy expressions and matrices by srepr, library objects through their public attributes; numpy refuses a write "
+    "to an array whose WRITEABLE flag is off with a ValueError naming 'read-only', Python refuses item assignment / deletion and "
+    "the mutating methods on tuple / MappingProxyType / frozenset / range with a TypeError / AttributeError naming them - such an "
+    "error text is taken as proof that the operation tried to write to its argument",
 ]
 ASSUMPTIONS = [
     "np.isclose(c, 0) in PauliSum.simplify coincides with the exact test on the dyadic coefficients generated here; "
@@ -61,6 +81,21 @@ ASSUMPTIONS = [
     "are not among the listed operations: their result may alias the argument exactly as the model says; the results of "
     "the listed operations are edited through public attributes only at their top-level container",
     "histories with a symbolic wavefunction are outside the model (oracle only)",
+    "containers (oracle only, outside the model): the container types per argument are those the UNCHANGED library accepts "
+    "(surveyed with `python -m harness.props.c20_containers survey`: every listed type answers every call of its family without a "
+    "rejection).  Not accepted by the unchanged library and therefore not generated: marked qubits as numpy arrays "
+    "(`if not marked_qubits` has no truth value for more than one entry), numpy arrays as the 'real' / 'imag' entries of "
+    "convert_dict_to_array's dictionary (same reason), nested lists / tuples as Parities.values (to_dict calls .tolist()), a tuple of "
+    "circuits for to_dict / save_circuitset (single dispatch on list), anything but an ndarray as the state of sparse_tools.expectation, "
+    "0-d arrays as bandwidth (not iterable) or as the coefficient of a Pauli term (the annotation is `complex`; with a 0-d array "
+    "hash(term) raises for complex entries and convert_op_to_dict hands out `coefficient.real`, a VIEW of the caller's array).  Rejections (the REJECT classes) count as answers; the frame condition is checked on "
+    "that path too",
+    "containers: normalize_measurement_outcome_distribution and expectation_values_to_real edit and return their argument by design "
+    "(in-place helpers, not among the listed operations: the constructor applies the former to its own re-keyed copy) and are not "
+    "called; a result may share SECOND-level objects with the arguments (the frame arrays inside the lists of "
+    "concatenate_expectation_values' result are the arguments' arrays, the terms inside a simplified sum are the operands' terms): "
+    "returned containers are edited at their top level only, results of constructors that keep the caller's container by design "
+    "(PauliSum(terms), Measurements(bitstrings), MultiPhaseOperation(params), replace_params) are not edited at all",
 ]
 
 SYMS = ["theta", "phi"]
@@ -215,10 +250,12 @@ def _kind(L, o):
     if isinstance(o, L.wfm.Wavefunction):
         return "wf"
     if isinstance(o, L.np.ndarray):
+        if o.dtype == object and o.ndim == 1 and o.size and isinstance(o[0], L.gates.GateOperation):
+            return "oplist"       # the operations of a circuit handed over as an object array
         return "arr"
-    if isinstance(o, dict):
+    if isinstance(o, (dict, _types.MappingProxyType)):
         return "ddict"
-    if isinstance(o, list):
+    if isinstance(o, (list, tuple)):   # (the literal containers of a history come as lists or as tuples)
         if o and isinstance(o[0], L.ops.PauliTerm):
             return "termlist"
         if o and isinstance(o[0], tuple):
@@ -227,7 +264,9 @@ def _kind(L, o):
             return "oplist"
         if o and isinstance(o[0], L.sympy.Basic):
             return "symvec"
-        return "list"
+        if o and isinstance(o[0], (int, float, complex)) and not isinstance(o[0], bool):
+            return "numlist"      # amplitudes as a plain Python sequence
+        return "list" if (isinstance(o, list) or not o) else "tuple"
     return type(o).__name__
 
 
@@ -266,11 +305,13 @@ def _strict(L, o, ids):
         return [k, repr(o.n_qubits), [[_gate_strict(L, x.gate), list(x.qubit_indices)] for x in o.operations],
                 [str(s) for s in o.free_symbols], str(o)]
     if k == "oplist":
-        return [k, [[_gate_strict(L, x.gate), list(x.qubit_indices)] for x in o]]
+        return [k, type(o).__name__, [[_gate_strict(L, x.gate), list(x.qubit_indices)] for x in o]]
     if k == "term":
         return [k, repr(o), _num_strict(o.coefficient), sorted([q, p] for q, p in o.operations), [list(x) for x in o._ops.items()]]
     if k == "termlist":
-        return [k, [_ident(ids, t) for t in o], [_strict(L, t, ids) for t in o]]
+        return [k, type(o).__name__, [_ident(ids, t) for t in o], [_strict(L, t, ids) for t in o]]
+    if k == "numlist":
+        return [k, type(o).__name__, [_num_strict(x) for x in o]]
     if k == "sum":
         return [k, type(o.terms).__name__, _ident(ids, o.terms), [_ident(ids, t) for t in o.terms],
                 [_strict(L, t, ids) for t in o.terms], repr(o)]
@@ -279,12 +320,14 @@ def _strict(L, o, ids):
     if k == "meas":
         return [k, repr(o.bitstrings), _ident(ids, o.bitstrings)]
     if k == "ddict":
-        return [k, [[repr(kk), _num_strict(v)] for kk, v in o.items()]]
+        return [k, type(o).__name__, [[repr(kk), _num_strict(v)] for kk, v in o.items()]]
     if k == "dist":
         return [k, [[repr(kk), _num_strict(v)] for kk, v in o.distribution_dict.items()], _ident(ids, o.distribution_dict),
                 repr(o)]
     if k == "arr":
-        return [k, str(o.dtype), list(o.shape), o.tobytes().hex() if o.dtype != object else [repr(x) for x in o.ravel()]]
+        return [k, str(o.dtype), list(o.shape), o.tobytes().hex() if o.dtype != object else [repr(x) for x in o.ravel()],
+                list(o.strides), bool(o.flags.writeable),
+                o.base.tobytes().hex() if isinstance(o.base, L.np.ndarray) and o.base.dtype != object else None]
     if k == "wf":
         if not isinstance(o._amplitude_vector, L.np.ndarray):   # symbolic: the entries as iteration shows them
             return [k, "symbolic", [repr(x) for x in o], _ident(ids, o._amplitude_vector), len(o),
@@ -378,6 +421,8 @@ def _model_obs_(L, o):
         return {"k": k, "d": _ddict_model(o.distribution_dict)}
     if k == "arr":
         return {"k": k, "a": [_coef_json(x) for x in o.tolist()]}
+    if k == "numlist":
+        return {"k": "arr", "a": [_coef_json(x) for x in o]}
     if k == "wf":
         return {"k": k, "a": [_coef_json(x) for x in o.amplitudes.tolist()]}
     return {"k": k}
@@ -424,7 +469,7 @@ ARGK = {"lit_terms": None, "circ_new": ["oplist|list"], "circ_add": ["circuit", 
         "term_pow": ["term"], "sum_new": ["termlist|list"], "sum_add": ["sum", "sum|term"], "sum_mul": ["sum", "sum|term"],
         "sum_rmul": ["sum"], "sum_pow": ["sum"], "sum_simplify": ["sum"], "op_conj": ["sum|term"],
         "meas_new": ["bitlist|list"], "meas_distribution": ["meas"], "meas_representing": ["dist"],
-        "dist_new": ["ddict"], "dist_sub": ["dist"], "wf_new": ["arr|symvec"], "wf_bind": ["wf"],
+        "dist_new": ["ddict"], "dist_sub": ["dist"], "wf_new": ["arr|symvec|numlist"], "wf_bind": ["wf"],
         "meas_counts": ["meas"], "wf_probs": ["wf"]}
 REJECT = {NotImplementedError: "err:notimpl", ValueError: "err:value", RuntimeError: "err:runtime",
           TypeError: "err:type", IndexError: "err:index",
@@ -491,23 +536,41 @@ def _scale(form, x, c):
 
 
 def _inline(L, call):
-    """the inline (non-pool) arguments of a call as fresh Python objects"""
+    """the inline (non-pool) arguments of a call as fresh Python objects, in the container type the call names (`qt`: the qubit
+    collection, `mt`: the mapping, `st`: the bandwidths; default: list / dict / python float).  `_aux` holds what stands behind
+    them (the buffer of a strided view, the dict behind a MappingProxyType) and is snapshotted with them."""
     op = call["op"]
+    C = c20_containers
+    aux = {}
+    mt = call.get("mt", "dict")
     if op == "circ_add_op":
         return {"gop": _gop_from_json(L, call["gop"])}
     if op == "circ_bind":
-        return {"map": {L.sympy.Symbol(s): _num(v) for s, v in call["map"]}}
+        return {"map": C.mk_map([(L.sympy.Symbol(s), _num(v)) for s, v in call["map"]], mt, aux, "map"), "_aux": aux}
     if op == "dist_sub":
-        return {"qubits": list(call["qubits"])}
+        qs, qt = list(call["qubits"]), call.get("qt", "list")
+        if qt == "range" and (not qs or qs != list(range(qs[0], qs[-1] + 1))):
+            qt = "tuple"
+        return {"qubits": C.mk_ints(L.np, qs, qt, aux, "qubits"), "_aux": aux}
     if op == "wf_bind":
-        return {"map": {L.sympy.Symbol(s): _num(v) for s, v in call.get("map", [])}}
+        return {"map": C.mk_map([(L.sympy.Symbol(s), _num(v)) for s, v in call.get("map", [])], mt, aux, "map"), "_aux": aux}
     if op == "meas_from_counts":
-        return {"counts": {"".join(str(b) for b in k): n for k, n in call["counts"]}}
+        return {"counts": C.mk_map([("".join(str(b) for b in k), n) for k, n in call["counts"]], mt, aux, "counts"), "_aux": aux}
     if op == "report" and call["kind"] == "distance":
-        return {"params": {"epsilon": 1e-9, "sigma": 1.0}}
+        sg, st = call.get("sigma", 1), call.get("st", "float")
+        if isinstance(sg, list):
+            sigma = C.mk_vec(L.np, [_num(x) for x in sg], st if st not in ("float", "npfloat") else "list", aux, "sigma")
+        else:
+            sigma = L.np.float64(_num(sg)) if st == "npfloat" else _num(sg)
+        return {"params": C.mk_map([("epsilon", 1e-9), ("sigma", sigma)], mt, aux, "params"), "_aux": aux}
     if op == "report" and call["kind"] in ("gate_apply", "cached_aug"):
         return {"gop": _gop_from_json(L, call["gop"])}
     return {}
+
+
+def _inline_snap(L, inl, keep):
+    """deep snapshot of the inline arguments: value with exact float bits, dtype, layout, container type, order, identity"""
+    return {k: (c20_containers.csnap(L, v, keep) if k != "gop" else repr(v)) for k, v in inl.items()}
 
 
 def _apply(L, pool, call, inl, tmpdir, limit=None):
@@ -526,24 +589,35 @@ def _apply(L, pool, call, inl, tmpdir, limit=None):
                 raise _BadRef()
     np = L.np
     C, O = L.circuits, L.ops
+    ct = call.get("ct")   # the container type of a literal (default: list / dict / complex128 array); empty ones stay lists
     if op == "lit_ops":
-        return [_gop_from_json(L, o) for o in call["ops"]]
+        ops = [_gop_from_json(L, o) for o in call["ops"]]
+        return c20_containers.mk_seq(np, ops, ct) if (ct and ops) else ops
     if op == "lit_terms":
         if any(_kind(L, x) != "term" for x in a):
             raise _BadRef()
-        return list(a)
+        return tuple(a) if (ct == "tuple" and a) else list(a)
     if op == "lit_bits":
-        return [tuple(b) for b in call["bits"]]
+        bits = [tuple(b) for b in call["bits"]]
+        return tuple(bits) if (ct == "tuple" and bits) else bits
     if op == "lit_symvec":   # amplitudes that are sympy expressions in theta / phi
         loc = {n: L.sympy.Symbol(n) for n in SYMS}
         return [L.sympy.sympify(e, locals=loc) for e in call["exprs"]]
     if op == "lit_dict":  # keys: tuples, bit strings ("011") or comma-separated strings ("10,3")
-        return {(tuple(k) if isinstance(k, list) else k): _num(v) for k, v in call["d"]}
+        return c20_containers.mk_map([((tuple(k) if isinstance(k, list) else k), _num(v)) for k, v in call["d"]], ct or "dict")
     if op == "lit_arr":
         dt = call.get("dtype", "complex128")
-        if dt == "float64":
-            return np.array([_num(x[0]) for x in call["a"]], dtype=np.float64)
-        return np.array([complex(_num(x[0]), _num(x[1])) for x in call["a"]], dtype=dt)
+        vals = [_num(x[0]) for x in call["a"]] if dt == "float64" else [complex(_num(x[0]), _num(x[1])) for x in call["a"]]
+        if ct in ("list", "tuple"):     # amplitudes as a plain Python sequence
+            return list(vals) if ct == "list" else tuple(vals)
+        arr = np.array(vals, dtype=dt)
+        if ct and "st" in ct.split(":"):   # a strided view of a buffer twice as long
+            base = np.zeros(2 * len(arr), dtype=dt)
+            base[::2] = arr
+            arr = base[::2]
+        if ct and "ro" in ct.split(":"):
+            arr.setflags(write=False)
+        return arr
     if op == "circ_new":
         return C.Circuit(a[0], call.get("nq")) if call.get("nq") is not None else C.Circuit(a[0])
     form = call.get("form")
@@ -676,6 +750,8 @@ def _report(L, kind, a, call, inl, tmpdir):
     if kind == "distance":
         fn = {"cnll": L.dist.compute_clipped_negative_log_likelihood, "mmd": L.dist.compute_mmd,
               "jsd": L.dist.compute_jensen_shannon_divergence}[call["measure"]]
+        if call.get("via") == "direct":
+            return fn(a[0], a[1], inl["params"])
         return L.dist.evaluate_distribution_distance(a[0], a[1], fn, distance_measure_parameters=inl["params"])
     if kind == "n_subsystems":
         return a[0].get_number_of_subsystems()
@@ -1063,7 +1139,7 @@ def _exec(L, pool, call, inl, tmpdir, limit=None):
     except _BadRef:
         return ("err", "err:badref"), None
     except tuple(REJECT) as e:
-        return ("err", next(v for k, v in REJECT.items() if isinstance(e, k))), str(e)[:80]
+        return ("err", next(v for k, v in REJECT.items() if isinstance(e, k))), str(e)[:120]
     except Exception as e:  # not a rejection: reported by the oracle
         return ("exc", f"exc:{type(e).__name__}: {e}"[:160]), None
 
@@ -1176,11 +1252,14 @@ def _edit_raw_containers(L, pool):
     edited = []
     for i, o in enumerate(pool):
         k = _kind(L, o)
-        if k == "oplist":
+        if k == "oplist" and isinstance(o, list):
             o.append(o[0])
             o.reverse()
             edited.append(i)
-        elif k == "ddict" and o:
+        elif k == "oplist" and isinstance(o, L.np.ndarray) and o[0] != o[-1]:
+            o[0] = o[-1]
+            edited.append(i)
+        elif k == "ddict" and o and isinstance(o, dict):
             first = next(iter(o))
             o[first] = o[first] + 1.0
             if len(o) > 1:
@@ -1205,6 +1284,8 @@ def run_impl(case):
 def _run_impl(case):
     if case.get("kind") == "evalframe":
         return _run_evalframe(case)
+    if case.get("kind") == "containers":
+        return c20_containers.run_case(_lib(), case)
     L = _lib()
     calls = case["calls"]
     pool, steps = [], []
@@ -1216,7 +1297,8 @@ def _run_impl(case):
             results = []
             n0 = len(pool)
             inl = _inline(L, call)  # ONE set of inline arguments for all repetitions of the call: "the same arguments"
-            inl_before = repr(inl)
+            inl_keep = []
+            inl_before = _inline_snap(L, inl, inl_keep)
 
             def attempt(tag):
                 # (nothing but snapshots happens between two calls: while the pool's membership is the same, the snapshot
@@ -1230,8 +1312,10 @@ def _run_impl(case):
                 if ch and "changed" not in rec:
                     rec["changed"] = [{"pool": i, "before": before[i], "after": after[i]} for i in ch[:3]]
                     rec["on_call"] = tag
-                if repr(inl) != inl_before and "inline_changed" not in rec:
-                    rec["inline_changed"] = {"before": inl_before[:200], "after": repr(inl)[:200], "on_call": tag}
+                inl_after = _inline_snap(L, inl, inl_keep)
+                if inl_after != inl_before and "inline_changed" not in rec:
+                    rec["inline_changed"] = {"where": c20_containers._where(inl_before, inl_after), "given_as": repr(inl)[:200],
+                                             "on_call": tag}
                 return res
 
             results.append(attempt(1))
@@ -1340,7 +1424,7 @@ def requests(case, out):
     for call, st in zip(case["calls"], out["steps"]):
         # (outside the model; "form": every syntactic form of an operation is the same model call - Python evaluates
         #  `x op= y`, reduce, sum(.., start), the dunder by name and pow() through the same __add__/__mul__/__pow__/__rmul__)
-        c = {k: v for k, v in call.items() if k not in ("seed", "left", "measure", "bessel", "form")}
+        c = {k: v for k, v in call.items() if k not in ("seed", "left", "measure", "bessel", "form", "qt", "mt", "st", "via", "ct")}
         if call["op"] == "meas_representing":
             res = st.get("res")
             c["samples"] = res["obj"]["bs"] if isinstance(res, dict) and res.get("obj") else []
@@ -1397,6 +1481,8 @@ def compare(case, out, resp):
 
 # ------------------------------------------------------------------ oracle (implementation only)
 def oracle(case, out):
+    if isinstance(out, dict) and out.get("containers"):
+        return c20_containers.oracle(case, out)
     if isinstance(out, dict) and out.get("evalframe"):
         if not out["sim_arg_intact"]:
             return ("mutates:evaluate_circuit", "SymbolicSimulator.get_wavefunction(circuit, initial_state=v) modified v")
@@ -1428,6 +1514,9 @@ def oracle(case, out):
         if "twice" in st:
             return ("unrepeatable:" + op, f"call {i} ({op}) made twice on the same arguments gave different results: "
                     f"{st['twice']}")
+        if isinstance(st["res"], str) and st["res"].startswith("err:") and c20_containers._WRITE_ATTEMPT.search(st.get("msg", "")):
+            return ("writes:" + op, f"call {i} ({op}, args {case['calls'][i].get('args', [])}, {case['calls'][i]}) was refused with an error "
+                    f"that only an attempted WRITE to a read-only / immutable argument produces: {st['msg']}")
         if "replay" in st:
             return ("unrepeatable:" + op, f"call {i} ({op}) repeats call {st['replay']['earlier_call']} on the same arguments "
                     f"(only value-returning calls in between) but gave a different result {st['replay']['diff']}")
@@ -1465,6 +1554,8 @@ def oracle(case, out):
 def nontrivial(case):
     if case.get("kind") == "evalframe":
         return len(case["ops"]) >= 2
+    if case.get("kind") == "containers":
+        return c20_containers.nontrivial(case)
     uses = {}
     n = 0
     for c in case["calls"]:
@@ -1482,7 +1573,9 @@ def distribution(cases, outs):
             "dict_inexact_sum": 0, "amplitudes_inexact_norm": 0, "amplitudes_real_or_single_dtype": 0,
             "term_int_or_complex_coef": 0, "term_from_string_or_iterable": 0, "oplist_width_ge_9": 0,
             "symbolic_wavefunctions": 0, "model_ops_in_another_form": 0, "augmented_assignments": 0,
-            "arithmetic_forms_outside_model": 0, "protocol_reads": 0, "copy_roundtrips_edited": 0, "augmented_on_cached_circuit": 0}
+            "arithmetic_forms_outside_model": 0, "protocol_reads": 0, "copy_roundtrips_edited": 0, "augmented_on_cached_circuit": 0,
+            "inline_mapping_not_a_plain_dict": 0, "inline_qubits_not_a_list": 0, "distance_bandwidths_float64_array": 0,
+            "distance_bandwidths_other_container": 0, "literal_container_not_list_dict_or_plain_array": 0}
     for c, o in zip(cases, outs):
         if "calls" not in c:
             continue
@@ -1493,6 +1586,11 @@ def distribution(cases, outs):
             if op not in LITERALS:
                 feat["repeated_identical_calls"] += k in seen
                 seen.add(k)
+            feat["literal_container_not_list_dict_or_plain_array"] += "ct" in call
+            feat["inline_mapping_not_a_plain_dict"] += "mt" in call
+            feat["inline_qubits_not_a_list"] += "qt" in call
+            if isinstance(call.get("sigma"), list):
+                feat["distance_bandwidths_float64_array" if call["st"].endswith("f64") else "distance_bandwidths_other_container"] += 1
             if call.get("form") and op != "report":
                 feat["model_ops_in_another_form"] += 1
                 feat["augmented_assignments"] += call["form"] in ("aug", "idiv")
@@ -1532,7 +1630,7 @@ def distribution(cases, outs):
                 errs[st["res"][:11]] = errs.get(st["res"][:11], 0) + 1
     return {"calls_by_op": dict(sorted(ops.items())), "rejections": errs, "input_features": feat,
             "history_lengths": dict(sorted(lens.items())),
-            "total_calls": sum(ops.values())}
+            "total_calls": sum(ops.values()), **c20_containers.distribution(cases, outs)}
 
 
 # ------------------------------------------------------------------ corpus and generators
@@ -1675,7 +1773,21 @@ def corpus():
             {"op": "wf_bind", "args": [1], "map": [["phi", "1/4"]]}, {"op": "wf_probs", "args": [3]},
             {"op": "report", "kind": "outcome_probs", "args": [1]}, {"op": "wf_bind", "args": [1], "map": []},
             {"op": "report", "kind": "eq", "args": [1, 4]}, {"op": "wf_probs", "args": [1]}]},
-    ]
+        # inline arguments in the container types that ALIAS under np.asarray / dict() / list() shortcuts: the bandwidths of the
+        # multi-kernel MMD as a float64 array inside the parameter dictionary (asked twice, directly and through
+        # evaluate_distribution_distance, then the other measures with the same widths), qubit indices as an int64 array / range,
+        # a MappingProxyType as parameter dictionary
+        {"kind": "dist", "calls": [
+            {"op": "lit_dict", "d": [[[0, 0, 0], "1/2"], [[1, 1, 1], "1/4"], [[0, 1, 0], "1/4"]]}, {"op": "dist_new", "args": [0], "normalize": True},
+            {"op": "lit_dict", "d": [[[0, 0, 0], "1/8"], [[1, 1, 1], "1/2"], [[0, 0, 1], "3/8"]]}, {"op": "dist_new", "args": [2], "normalize": True},
+            {"op": "report", "kind": "distance", "measure": "mmd", "args": [1, 3], "sigma": ["1/4", 1, 4], "st": "f64", "via": "direct"},
+            {"op": "report", "kind": "distance", "measure": "mmd", "args": [1, 3], "sigma": ["1/4", 1, 4], "st": "f64"},
+            {"op": "report", "kind": "distance", "measure": "mmd", "args": [3, 1], "sigma": ["1/4", 1, 4], "st": "ro:f64", "mt": "proxy"},
+            {"op": "report", "kind": "distance", "measure": "jsd", "args": [1, 3], "sigma": [2, 3], "st": "i64", "mt": "odict"},
+            {"op": "dist_sub", "args": [1], "qubits": [2, 0], "qt": "i64"}, {"op": "dist_sub", "args": [1], "qubits": [0, 1], "qt": "range"},
+            {"op": "dist_sub", "args": [3], "qubits": [2, 0], "qt": "ro:i64"},
+            {"op": "report", "kind": "distance", "measure": "mmd", "args": [1, 3], "sigma": ["1/4", 1, 4], "st": "f64", "via": "direct"}]},
+    ] + c20_containers.corpus()
 
 
 def _dy(rng, den=4, lo=-8, hi=8, nonzero=True):
@@ -1730,6 +1842,46 @@ class _Gen:
 
     def pow2(self):
         return [rat(self.rng.choice([-1, 1]) * Fraction(2) ** self.rng.randrange(-2, 3)), 0]
+
+    # -- the container type the caller uses for an inline argument (default: list / dict / python float)
+    def mt(self, extra=(), p=0.45):
+        if self.rng.random() >= p:
+            return {}
+        return {"mt": self.rng.choice(["odict", "proxy", "proxy"] + list(extra))}
+
+    def ct(self, kinds, ok=True, p=0.35):
+        """the container type of a literal the caller builds (default: list / dict / writable contiguous array)"""
+        if not ok or self.rng.random() >= p:
+            return {}
+        return {"ct": self.rng.choice(kinds)}
+
+    def qt(self, qs, p=0.5):
+        if self.rng.random() >= p:
+            return {}
+        kinds = ["tuple", "npints", "i64", "i64", "ro:i64", "st:i64", "nptuple"]
+        if qs and qs == list(range(qs[0], qs[-1] + 1)):
+            kinds.append("range")
+        return {"qt": self.rng.choice(kinds)}
+
+    def bandwidths(self, p=0.6):
+        """the kernel widths of a distance call: a scalar (python / numpy) or 1-3 widths as list / tuple / float64 array (the type
+        np.asarray(.., dtype=float) hands back unchanged; plain, read-only, strided) / int64 / float32 array / numpy scalars"""
+        rng = self.rng
+        if rng.random() >= p:
+            return {}
+        out = {}
+        r = rng.random()
+        if r < 0.2:
+            out["sigma"] = rat(Fraction(rng.randrange(1, 40), rng.choice([1, 2, 4])))
+            out["st"] = rng.choice(["float", "npfloat"])
+        else:
+            st = rng.choice(["list", "tuple", "f64", "f64", "f64", "ro:f64", "st:f64", "i64", "f32", "npfloats"])
+            out["sigma"] = [rat(Fraction(rng.randrange(1, 40), 1 if st == "i64" else rng.choice([1, 2, 4]))) for _ in range(rng.randrange(1, 4))]
+            out["st"] = st
+        out.update(self.mt(extra=["ddict"]))
+        if rng.random() < 0.5:
+            out["via"] = "direct"
+        return out
 
     AUGS = ["+=", "-=", "*=", "/=", "**=", "@="]
     LIBKINDS = ("circuit", "term", "sum", "meas", "dist", "wf")
@@ -1930,7 +2082,8 @@ class _Gen:
             o, s, hv = self.gop(maxq=12 if wide else 4)
             ops.append(o)
             sym, heavy, mq = sym or s, heavy or hv, max(mq, max(o["q"]))
-        return self.emit({"op": "lit_ops", "ops": ops}, {"k": "oplist", "n": n, "sym": sym, "heavy": heavy, "nq": mq + 1})
+        return self.emit({"op": "lit_ops", "ops": ops, **self.ct(["tuple", "objarr"], n > 0)},
+                         {"k": "oplist", "n": n, "sym": sym, "heavy": heavy, "nq": mq + 1})
 
     def term_new(self, ising=False, maxq=4):
         rng = self.rng
@@ -1961,7 +2114,7 @@ class _Gen:
         w = w or rng.choice([1, 2, 3])
         n = rng.choice([0, 1, 2, 4, 8, 5])
         bits = [[rng.randrange(2) for _ in range(w)] for _ in range(n)]
-        return self.emit({"op": "lit_bits", "bits": bits}, {"k": "bitlist", "w": w, "n": n})
+        return self.emit({"op": "lit_bits", "bits": bits, **self.ct(["tuple"], n > 0)}, {"k": "bitlist", "w": w, "n": n})
 
     def lit_dict(self, malformed=False):
         rng = self.rng
@@ -2014,7 +2167,8 @@ class _Gen:
                 f = "tuple"      # "3" without a comma is read digit by digit anyway
             jkeys.append(k if f == "tuple" else ("".join(map(str, k)) if f == "str" else ",".join(map(str, k))))
         d = [[k, rat(v)] for k, v in zip(jkeys, vals)]
-        return self.emit({"op": "lit_dict", "d": d}, {"k": "ddict", "w": w, "ok": ok, "sum": sum(vals), "nb": nb})
+        return self.emit({"op": "lit_dict", "d": d, **self.ct(["odict", "proxy", "proxy"])},
+                         {"k": "ddict", "w": w, "ok": ok, "sum": sum(vals), "nb": nb})
 
     def lit_arr(self, malformed=False):
         rng = self.rng
@@ -2052,7 +2206,8 @@ class _Gen:
         elif rng.random() < 0.1 and all(Fraction(v).denominator in (1, 2, 4, 8, 16) for xy in a for v in xy):
             extra["dtype"] = "complex64"
         n = len(a)
-        return self.emit({"op": "lit_arr", "a": [[rat(x), rat(y)] for x, y in a], **extra},
+        return self.emit({"op": "lit_arr", "a": [[rat(x), rat(y)] for x, y in a], **extra,
+                          **self.ct(["ro", "ro", "st", "ro:st", "list", "tuple"], extra.get("dtype") != "complex64", 0.4)},
                          {"k": "arr", "n": n, "ok": not malformed, "nq": n.bit_length() - 1})
 
     # -- one random listed call of a family; returns False if nothing applicable
@@ -2088,7 +2243,7 @@ class _Gen:
         elif choice == "bind":
             which = rng.choice([SYMS, SYMS[:1], SYMS[1:], []])
             mp = [[s, rat(_dy(rng, 4, -6, 6, False))] for s in which]
-            E({"op": "circ_bind", "args": [c], "map": mp},
+            E({"op": "circ_bind", "args": [c], "map": mp, **self.mt(extra=["ddict"])},
               {**m, "sym": m["sym"] and len(which) < 2} if not m["heavy"] else None)
         elif choice == "inverse":
             E({"op": "circ_inverse", "args": [c]}, dict(m))
@@ -2149,7 +2304,7 @@ class _Gen:
             E({"op": "op_conj", "args": [t]}, dict(mt))
         elif choice == "lit_terms":
             ts = [self.pick("term") for _ in range(rng.randrange(1, 5))]
-            l = E({"op": "lit_terms", "args": ts}, {"k": "termlist", "nq": max(self.meta[i]["nq"] for i in ts), "nt": len(ts),
+            l = E({"op": "lit_terms", "args": ts, **self.ct(["tuple"])}, {"k": "termlist", "nq": max(self.meta[i]["nq"] for i in ts), "nt": len(ts),
                                                     "ising": all(self.meta[i]["ising"] for i in ts),
                                                     "ib": max(self.meta[i]["ib"] for i in ts), "fb": max(self.meta[i]["fb"] for i in ts)})
             E({"op": "sum_new", "args": [l]}, {**self.meta[l], "k": "sum"})
@@ -2228,7 +2383,7 @@ class _Gen:
             if keys and rng.random() < 0.12:
                 # a measurement set of 1000+ shots (sizes at which a library would start to keep a histogram instead of recounting)
                 cnt = [[k, rng.randrange(250, 700) + (1000 if i == 0 else 0)] for i, k in enumerate(keys)]
-            E({"op": "meas_from_counts", "counts": cnt}, {"k": "meas", "w": w, "n": sum(c[1] for c in cnt)})
+            E({"op": "meas_from_counts", "counts": cnt, **self.mt(extra=["counter"])}, {"k": "meas", "w": w, "n": sum(c[1] for c in cnt)})
         elif choice == "counts":
             E({"op": "meas_counts", "args": [m]}, None)
         elif choice == "distribution":
@@ -2286,7 +2441,7 @@ class _Gen:
             if malformed:
                 qs = rng.choice([[], qs + [qs[0]], qs + [w], [w + 1], [-w - 1], qs + [-w - 2], qs + [qs[0] - w if qs[0] >= 0 else qs[0] + w]])
             ok = len(qs) > 0 and len(set(qs)) == len(qs) and max(qs) < w and min(qs) >= -w
-            E({"op": "dist_sub", "args": [d], "qubits": qs},
+            E({"op": "dist_sub", "args": [d], "qubits": qs, **(self.qt(qs) if ok else {})},
               {"k": "dist", "w": len(qs), "normalized": md["normalized"], "nb": md.get("nb"), "src": md.get("src")} if ok else None)
         elif choice == "distance":
             e = self.pick("dist", lambda x: x["w"] == md["w"]) if rng.random() < 0.9 else self.pick("dist")
@@ -2299,7 +2454,7 @@ class _Gen:
                     d, e, md = e, d, self.meta[e]
             if md.get("nb") or self.meta[e].get("nb"):
                 return False
-            E({"op": "report", "kind": "distance", "measure": rng.choice(["cnll", "mmd", "jsd"]), "args": [d, e]}, None)
+            E({"op": "report", "kind": "distance", "measure": rng.choice(["cnll", "mmd", "mmd", "jsd"]), "args": [d, e], **self.bandwidths()}, None)
         elif choice == "representing":
             if md.get("nb"):
                 return False
@@ -2330,7 +2485,7 @@ class _Gen:
         elif choice == "bind":
             which = rng.choice([SYMS, SYMS[:1], SYMS[1:], []])
             mp = [[s, rat(_dy(rng, 4, -6, 6, False))] for s in which]
-            E({"op": "wf_bind", "args": [w], "map": mp}, {"k": "wf", "nq": self.meta[w]["nq"], "sym": True})
+            E({"op": "wf_bind", "args": [w], "map": mp, **self.mt()}, {"k": "wf", "nq": self.meta[w]["nq"], "sym": True})
         elif choice == "eq":
             E({"op": "report", "kind": "eq", "args": [w, self.pick("wf")]}, None)
         else:
@@ -2440,4 +2595,6 @@ def generate(rng, tier):
         cases.append(_history(rng, big, ["dist", "wf", "mixed"][i % 3], malformed=True))
     for i in range(n // 14):  # symbolic wavefunctions (oracle only)
         cases.append(_history(rng, big, "wfsym"))
+    # every argument of every family of operations in every container type the library accepts (oracle only)
+    cases.extend(c20_containers.generate(rng, big))
     return cases
